@@ -141,7 +141,7 @@ def _membership_fact(fa, fx: Facts, V, node_p, names_terms) -> bool:
 
 def _table_agreement(run: Run, m) -> None:
     mod = m.module("func_adl.ast.func_adl_ast_utils")
-    lst = mod.assigns.get("default_list_of_functions")
+    lst = m.find_assign("default_list_of_functions", mod.name)
     if not isinstance(lst, (ast.List, ast.Tuple)) or not all(isinstance(e, ast.Constant) and isinstance(e.value, str) for e in lst.elts):
         raise AnalysisError("default_list_of_functions is not a literal list of strings")
     table = {e.value for e in lst.elts}  # type: ignore
